@@ -62,6 +62,7 @@ EXC_PARENTS = {
     "CallbackError": "Exception",
     "Full": "Exception",
     "BodyError": "Exception",
+    "Timeout": "OSError",
     "WorkerFailedError": "Exception",
     "Exception": "BaseException",
     "KeyboardInterrupt": "BaseException",
